@@ -263,6 +263,36 @@ func C02bits(p *load.Program, run *report.Run) {
 									return true
 								})
 							}
+							// the bit is the first result of a function that resolves the label against the wire and
+							// that the three-case evaluation accepts (L0 -> 0, L1 -> 1)
+							if id, ok := ast.Unparen(unwrapConv(t.Args[2])).(*ast.Ident); ok && pol == "" {
+								ast.Inspect(body, func(q ast.Node) bool {
+									as, ok := q.(*ast.AssignStmt)
+									if !ok || len(as.Rhs) != 1 || len(as.Lhs) < 1 || types.ExprString(as.Lhs[0]) != id.Name {
+										return true
+									}
+									call, ok := ast.Unparen(as.Rhs[0]).(*ast.CallExpr)
+									if !ok {
+										return true
+									}
+									var fid *ast.Ident
+									switch f := ast.Unparen(call.Fun).(type) {
+									case *ast.Ident:
+										fid = f
+									case *ast.SelectorExpr:
+										fid = f.Sel
+									}
+									if fid == nil {
+										return true
+									}
+									if fo, ok := rpkg.TypesInfo.Uses[fid].(*types.Func); ok {
+										if sf := p.SSA.FuncValue(fo); sf != nil && labelDecider(sf).ok {
+											pol = "by-decider"
+										}
+									}
+									return true
+								})
+							}
 							switch {
 							case k != iv:
 								run.Violate("bit-wire-correspondence", key+"/result-bit", p.Rel(t.Pos()), fmt.Sprintf("the bit decoded from result label %s is stored as result bit %s", iv, k), nil)
